@@ -117,12 +117,13 @@ def buffer_semantics(cx, rep):
     npts = 0
     try:
         lv = dl(rd)
-        for sw in (1, 2):
-            for ch in (1, 2):
+        big = rep.tier == 'thorough'          # the thorough tier evaluates the same obligations on a larger grid
+        for sw in ((1, 2, 4) if big else (1, 2)):
+            for ch in ((1, 2, 3) if big else (1, 2)):
                 bps = sw * ch
-                for n in (0, 1, 3, 4):
+                for n in ((0, 1, 2, 3, 4, 7, 10) if big else (0, 1, 3, 4)):
                     for k in range(n + 1):
-                        for size in (None, -1, -3, 1, 2, 3, 10):
+                        for size in ((None, -1, -3, 1, 2, 3, 4, 5, 9, 10, 11, 100) if big else (None, -1, -3, 1, 2, 3, 10)):
                             d, a = A(n, k * bps, sw, ch, **{pn: size})
                             what = 'read(%s) at sample %d of %d (%d-byte samples, %d channel(s))' % (size, k, n, sw, ch)
                             l = one(lv, a, what)
@@ -281,6 +282,7 @@ def buffer_semantics(cx, rep):
 
 def check(repo, rep):
     cx = Ctx(repo)
+    rep.cx = cx
     srcs = concrete_sources(cx)
     rep.floor('concrete AudioSource classes', len(srcs), 5)
     listed = {'BufferAudioSource', 'RawAudioSource', 'WaveAudioSource', 'StdinAudioSource'}
@@ -391,6 +393,152 @@ def check(repo, rep):
         rep.ob('read() leaves the open state alone: an exhausted source keeps answering None (it does not close itself)', not touched and not calls_close, cx.where(r[0], r[2]), '%s.read:changes-open-state' % c.name,
                'read() may write %s (read by is_open) / calls %s' % (touched, [ast.unparse(n.func) for n in calls_close]), sample=dict(source=c.name, open_state_fields=sorted(open_fields), written_by_read=touched))
     buffer_semantics(cx, rep)
+    # ---------------------------------------------------------------- open() of an open file source does not start over (a history may open twice)
+    nopen = 0
+    for mod, c in srcs:
+        o = cx.model.find_method(mod, c, 'open')
+        if o is None or c.name not in ('RawAudioSource', 'WaveAudioSource', 'StdinAudioSource'):
+            continue            # the property's source kinds; the buffer source has no stream to recreate
+        for l in split_ites(cx.leaves_of(*o)):
+            st = [e for e in l.effects if e[0] == 'store' and e[1][0] == 'attr' and e[1][1] == ('self',) and e[2][0] == 'call'
+                  and term_name(e[2][1]).split('.')[-1] in ('open', 'Wave_read', 'PyAudio', 'BufferedReader')]
+            for e in st:
+                nopen += 1
+                fld = e[1]
+                pre = l.conds[:e[4]] if e[4] is not None else l.conds
+                guarded = any((g := norm_cmp(ct, tr)) and g[0] == 'is' and g[1] == fld and g[2] == ('c', None) for ct, tr, _ in pre) or \
+                    any(open_check(ct) and not tr for ct, tr, _ in pre if not (ct[0] == 'cmp'))
+                if guarded:
+                    rep.ob('open() (re)creates the stream only when the source is not open: opening an open source does not start over', True, cx.where(o[0], e[3]), sample=dict(source=c.name, guard='%s is None' % show(fld)))
+                elif not pre:
+                    rep.ob('open() (re)creates the stream only when the source is not open: opening an open source does not start over', False, cx.where(o[0], e[3]), '%s.open:unguarded' % c.name,
+                           '%s is assigned %s without testing whether the source is already open (an open; read; open; read history restarts at the beginning)' % (show(fld), show(e[2])[:60]))
+                else:
+                    rep.unknown('%s.open: the test guarding the creation of the stream (%s) was not recognised' % (c.name, [(show(ct)[:40], tr) for ct, tr, _ in pre]))
+    rep.floor('stream creations in open() of the file sources', nopen, 2)
+    # ---------------------------------------------------------------- a source is closed until open() is called (reading it raises the I/O error)
+    from ..semantic import deep_leaves, evaluator, Undecided
+    from ..termeval import NotEvaluable
+    nclosed = 0
+    for mod, c in srcs:
+        if c.name not in ('BufferAudioSource', 'RawAudioSource', 'WaveAudioSource', 'StdinAudioSource'):
+            continue
+        ini = cx.model.find_method(mod, c, '__init__')
+        iso = cx.model.find_method(mod, c, 'is_open')
+        if ini is None or iso is None:
+            continue
+        try:
+            # constant field values after construction (stores of constants on every non-raising constructor path, base constructors inlined)
+            consts = None
+            for l in deep_leaves(cx, ini[0], c, ini[2]):
+                if l.outcome == 'raise':
+                    continue
+                cur = {}
+                for e in l.effects:
+                    if e[0] == 'store' and e[1][0] == 'attr' and e[1][1] == ('self',):
+                        cur[e[1][2]] = e[2]
+                consts = cur if consts is None else {k: v for k, v in consts.items() if cur.get(k) == v}
+            consts = {k: v for k, v in (consts or {}).items() if v[0] == 'c'}
+            for l in deep_leaves(cx, iso[0], c, iso[2]):
+                if l.outcome != 'return' or l.conds:
+                    raise Undecided('is_open() has several paths')
+                ev_ = evaluator({('attr', ('self',), k): v[1] for k, v in consts.items()})
+                got = ev_.ev(l.value)
+                if ev_.leaves:
+                    raise Undecided('is_open() reads %s, which the constructor does not set to a constant' % [show(k)[:40] for k in ev_.leaves][:2])
+                nclosed += 1
+                rep.ob('a newly constructed source is not open (read() before open() raises the I/O error)', not got, cx.where(ini[0], ini[2]), '%s.__init__:open-at-construction' % c.name,
+                       'after construction is_open() = %s evaluates to %r' % (show(l.value)[:60], got), sample=dict(source=c.name, is_open_after_init=bool(got)))
+        except (Undecided, NotEvaluable) as exc:
+            rep.unknown('%s: open state after construction not decided (%s)' % (c.name, exc))
+    rep.floor('sources whose state after construction was evaluated', nclosed, 3)
+    # ---------------------------------------------------------------- open() opens, close() closes (a closed source raises on read; a history may close and reopen)
+    class _Obj:          # what a call that creates a stream evaluates to: some object that is not None
+        def __repr__(self):
+            return '<stream object>'
+    nopenclose = 0
+    for mod, c in srcs:
+        if c.name not in ('BufferAudioSource', 'RawAudioSource', 'WaveAudioSource', 'StdinAudioSource'):
+            continue
+        ini, iso, opn, cls_ = (cx.model.find_method(mod, c, m_) for m_ in ('__init__', 'is_open', 'open', 'close'))
+        if None in (ini, iso, opn, cls_):
+            continue
+        try:
+            state = None
+            for l in deep_leaves(cx, ini[0], c, ini[2]):
+                if l.outcome == 'raise':
+                    continue
+                cur = {}
+                for e in l.effects:
+                    if e[0] == 'store' and e[1][0] == 'attr' and e[1][1] == ('self',):
+                        cur[e[1][2]] = e[2]
+                state = cur if state is None else {k: v for k, v in state.items() if cur.get(k) == v}
+            PAR = {('p', 'sample_width'): 2, ('p', 'channels'): 1, ('p', 'sampling_rate'): 10, ('p', 'data'): bytes(8), ('attr', ('self',), 'sample_width'): 2, ('attr', ('self',), 'channels'): 1,
+                   ('attr', ('self',), 'sampling_rate'): 10}
+
+            def val_of(t):
+                if t[0] == 'c':
+                    return t[1]
+                try:
+                    ev_ = evaluator(dict(PAR))
+                    v_ = ev_.ev(t)
+                    return v_ if not ev_.leaves else _Obj()
+                except NotEvaluable:
+                    return _Obj()
+            state = {k: val_of(v) for k, v in (state or {}).items()}
+
+            def ov(st):
+                d_ = dict(PAR)
+                d_.update({('attr', ('self',), k): v for k, v in st.items()})
+                return d_
+
+            def apply(meth, st):
+                hit = []
+                for l in deep_leaves(cx, meth[0], c, meth[2]):
+                    ok_ = True
+                    for ct, tr, _ in l.conds:
+                        ev_ = evaluator(ov(st))
+                        got = ev_.ev(ct)
+                        if ev_.leaves:
+                            raise Undecided('%s tests %s, which is not tracked' % (meth[2].name, show(ct)[:50]))
+                        if bool(got) != tr:
+                            ok_ = False
+                            break
+                    if ok_:
+                        hit.append(l)
+                if len(hit) != 1 or hit[0].outcome == 'raise':
+                    raise Undecided('%d paths of %s apply' % (len(hit), meth[2].name))
+                st2 = dict(st)
+                for e in hit[0].effects:
+                    if e[0] == 'store' and e[1][0] == 'attr' and e[1][1] == ('self',):
+                        try:
+                            ev2 = evaluator(ov(st2))
+                            v2 = ev2.ev(e[2])
+                            st2[e[1][2]] = v2 if not ev2.leaves else _Obj()
+                        except NotEvaluable:
+                            st2[e[1][2]] = _Obj()
+                return st2
+
+            def is_open(st):
+                lv_ = [l for l in deep_leaves(cx, iso[0], c, iso[2]) if l.outcome == 'return']
+                if len(lv_) != 1 or lv_[0].conds:
+                    raise Undecided('is_open() has several paths')
+                ev_ = evaluator(ov(st))
+                got = ev_.ev(lv_[0].value)
+                if ev_.leaves:
+                    raise Undecided('is_open() reads %s' % [show(k)[:40] for k in ev_.leaves][:2])
+                return bool(got)
+            s1 = apply(opn, state)
+            s2 = apply(cls_, s1)
+            s3 = apply(opn, s2)
+            nopenclose += 1
+            seq = [('open()', is_open(s1), True), ('open(); close()', is_open(s2), False), ('open(); close(); open()', is_open(s3), True), ('open(); open()', is_open(apply(opn, s1)), True), ('close()', is_open(apply(cls_, state)), False)]
+            badseq = [(h, g) for h, g, w in seq if g != w]
+            rep.ob('open() opens and close() closes the source (is_open() after open / close / reopen)', not badseq, cx.where(mod, c), '%s:open-close' % c.name,
+                   'after %s is_open() is %s' % badseq[0] if badseq else None, sample=dict(source=c.name, histories=[h for h, _, _ in seq]))
+        except (Undecided, NotEvaluable) as exc:
+            rep.unknown('%s: open/close typestate not decided (%s)' % (c.name, exc))
+    rep.floor('sources whose open/close typestate was evaluated', nopenclose, 3)
     # ---------------------------------------------------------------- whole-sample check
     cad = cx.leaves('io', 'check_audio_data')
     raises = [l for l in cad if l.outcome == 'raise']
